@@ -281,7 +281,7 @@ func (c *CheckCtx) writeEvidence() {
 		sort.Strings(covers)
 		harn = append(harn, map[string]interface{}{"harness": r.Cfg.Pkg + "." + r.Cfg.Name, "solver": r.Cfg.Solver, "paths": r.Paths, "path_ends": r.Ends,
 			"params": r.Cfg.Params, "unwind": r.Cfg.Unwind, "covers_witnessed": covers, "wall_s": r.Wall, "cut_paths_by_unwind_assumption": r.CutPaths,
-			"go_panics_in_code_under_test": r.Panics, "cross_solver_disagreements": r.CrossDiff})
+			"go_panics_in_code_under_test": r.Panics, "notes": r.Notes, "cross_solver_disagreements": r.CrossDiff})
 	}
 	// encoded functions: repo functions only, with instruction counts
 	enc := map[string]int{}
